@@ -1,5 +1,5 @@
 #!/usr/bin/env python3
-"""Developer tool: builds /verif/seeded/<Cxx>-<a|b>/ from a sub-agent's deliverables
+"""Developer tool: builds /verif/seeded/<Cxx>-<a|b|c|d>/ from a sub-agent's deliverables
 (/tmp/seedout/Cxx/{a,b}: patch.diff, demo.py, meta.json) and my own confirmation log
 (/tmp/confirm/Cxx-a.log written by tools/confirm_seed.sh), and records which rule of which
 property detects the change on an overlay of the current tree.
@@ -15,8 +15,10 @@ import subprocess
 import sys
 
 VERIF = os.path.dirname(os.path.dirname(os.path.abspath(__file__)))
-OUT = "/tmp/seedout"
-CONF = "/tmp/confirm"
+OUT = os.environ.get("SEED_OUT", "/tmp/seedout")
+CONF = os.environ.get("SEED_CONF", "/tmp/confirm")
+# round 3 deliverables a/b are stored as <Cxx>-c / <Cxx>-d:  SEED_RENAME="a=c,b=d"
+RENAME = dict(x.split("=") for x in os.environ.get("SEED_RENAME", "").split(",") if x)
 history = json.load(open(sys.argv[1])) if len(sys.argv) > 1 else {}
 
 head = subprocess.check_output(["git", "-C", "/repo", "rev-parse", "--short", "HEAD"], text=True).strip()
@@ -26,8 +28,8 @@ for prop in sorted(os.listdir(OUT)):
         continue
     for v in ("a", "b"):
         src = os.path.join(OUT, prop, v)
-        sid = f"{prop}-{v}"
-        log = os.path.join(CONF, f"{sid}.log")
+        sid = f"{prop}-{RENAME.get(v, v)}"
+        log = os.path.join(CONF, f"{prop}-{v}.log")
         if not (os.path.exists(os.path.join(src, "patch.diff")) and os.path.exists(log)):
             continue
         txt = open(log).read()
